@@ -105,3 +105,51 @@ void h_lifecycle(void)
 	free(VG_HDR.unix_group);
 	VG_CANARY("lifecycle");
 }
+
+/* C11 on the real code without contract instrumentation (robust against changes of loop shape): every file name
+   produced by the 0x01 (file name) and every path produced by the 0x02 (path) extended-header decoder, for
+   data of at most VG_NM_N bytes of ANY value, loops unwound: the stored name has no '/'; the stored path is
+   NUL-terminated, ends in '/', has no 0xFF left.  BOUNDED (data length), complements the inductive
+   exthdr.filename / exthdr.path proofs. */
+#ifndef VG_NM_N
+#define VG_NM_N 10
+#endif
+void h_names_bounded(void)
+{
+	size_t n = nondet_size_t(), j;
+	uint8_t *d;
+	_Bool which = nondet_bool();
+	__CPROVER_havoc_object(&VG_HDR);
+	vg_malloc_ok = nondet_int();
+	VG_HDR.filename = NULL; VG_HDR.path = NULL; VG_HDR.unix_username = NULL; VG_HDR.unix_group = NULL;
+	__CPROVER_assume(n >= 1 && n <= VG_NM_N);
+	d = malloc(n);
+	__CPROVER_assume(d != NULL);
+	__CPROVER_havoc_object(d);
+	if (which) {
+		if (lha_ext_header_decode(&VG_HDR, 0x01, d, n) && VG_HDR.filename != NULL) {
+			_Bool ended = 0;
+			for (j = 0; j <= VG_NM_N; j++) {
+				if (!ended) {
+					__CPROVER_assert(j <= n, "C11 bounded: stored file name is NUL-terminated within its block");
+					if (VG_HDR.filename[j] == 0) ended = 1;
+					else __CPROVER_assert(VG_HDR.filename[j] != '/', "C11 bounded: file name from the file-name extended header contains no '/'");
+				}
+			}
+			__CPROVER_assert(ended, "C11 bounded: file name terminated");
+		}
+	} else {
+		if (lha_ext_header_decode(&VG_HDR, 0x02, d, n) && VG_HDR.path != NULL) {
+			size_t len = 0; _Bool ended = 0;
+			for (j = 0; j <= VG_NM_N + 1; j++) {
+				if (!ended) {
+					__CPROVER_assert(j <= n + 1, "C11 bounded: stored path is NUL-terminated within its block");
+					if (VG_HDR.path[j] == 0) { ended = 1; len = j; }
+					else __CPROVER_assert((uint8_t) VG_HDR.path[j] != 0xff, "C11 bounded: 0xFF separators are converted to '/'");
+				}
+			}
+			__CPROVER_assert(ended && (len < n || VG_HDR.path[len - 1] == '/'), "C11 bounded: path from the path extended header ends in '/' (unless the data had an embedded NUL, which ends the C string early)");
+		}
+	}
+	VG_CANARY("names_bounded");
+}
